@@ -122,7 +122,9 @@ def _strategy(draw):
                     centre[draw(st.integers(0, 2))] = round(draw(st.sampled_from([0.2, 0.8])) * edge, 2)
             else:
                 centre = [round(draw(st.sampled_from([0.25, 0.75])) * edge, 2) for _ in range(3)]
-                size = 1.0
+                # forbidden regions of several sizes, up to a good third of the box edge
+                size = draw(st.sampled_from([s_ for s_ in [0.8, 1.0, 1.7, 2.4] if s_ <= max(1.0, 0.27 * edge)]
+                                            + [round(0.38 * edge, 1)]))
                 if near_face:
                     # a forbidden region that touches a box face: it can be entered by a step across the face
                     centre[draw(st.integers(0, 2))] = round(draw(st.sampled_from([0.04, 0.96])) * edge, 2)
